@@ -91,6 +91,78 @@ pub fn c14(args: &Args) {
             }
         }
     }
+    // the chunk alphabet at the edges of every reduction step and type width: kq-1, kq, kq+1 (k = 1..5), 2^j-1, 2^j, 2^j+1,
+    // byte patterns -- a greedy cover: strings are kept while they bring a value not seen yet (thorough: the WHOLE 16-bit alphabet)
+    {
+        let mut wanted: std::collections::BTreeSet<u32> = std::collections::BTreeSet::new();
+        if thorough {
+            wanted.extend(0..65536u32);
+        } else {
+            for k in 1..=5u32 {
+                wanted.extend([k * 12289 - 1, k * 12289, k * 12289 + 1]);
+            }
+            for j in 7..=15u32 {
+                wanted.extend([(1 << j) - 1, 1 << j, (1 << j) + 1]);
+            }
+            wanted.extend([0, 1, 2, 255, 256, 0x00ff, 0xff00, 0x0100, 0x80ff, 0xff7f, 0x7f00, 0xfeff, 0xfffe, 65534, 65535, 61443, 61444, 61445, 61446, 24577, 36866, 49155]);
+        }
+        let mut ctr = 0u64;
+        let budget = if thorough { 3_000_000u64 } else { 400_000 };
+        let mut kept = 0;
+        while !wanted.is_empty() && ctr < budget {
+            let s = format!("alphabet-{}-{}", base, ctr).into_bytes();
+            ctr += 1;
+            let ch = consumed_chunks(&s, 1024);
+            let fresh: Vec<u32> = ch.iter().filter(|t| wanted.contains(t)).cloned().collect();
+            // thorough: keep a string only while it still brings many new values, then finish the tail value by value
+            let need = if thorough { if wanted.len() > 6000 { 40 } else if wanted.len() > 600 { 4 } else { 1 } } else { 1 };
+            if fresh.len() >= need {
+                for t in fresh {
+                    wanted.remove(&t);
+                }
+                out.emit(h2p_event(&s, "chunk-alphabet"));
+                kept += 1;
+            }
+        }
+        eprintln!("[c14] chunk alphabet: {} strings kept, {} values left uncovered after {} candidates", kept, wanted.len(), ctr);
+    }
+    // the strings with the MOST rejected chunks in a large native search (the stream is consumed furthest beyond the expected
+    // length: a fixed first squeeze with a faulty continuation shows here first), for both n
+    {
+        let budget = if thorough { 4_000_000u64 } else { 300_000 };
+        let mut best: [(usize, Vec<u8>); 2] = [(0, vec![]), (0, vec![])];
+        for ctr in 0..budget {
+            let s = format!("most-rejects-{}-{}", base, ctr).into_bytes();
+            let ch = consumed_chunks(&s, 1024);
+            let mut got = 0;
+            let mut rej512 = 0;
+            let mut rej = 0;
+            for &t in &ch {
+                if t >= 61445 {
+                    rej += 1;
+                } else {
+                    got += 1;
+                    if got == 512 {
+                        rej512 = rej;
+                    }
+                }
+            }
+            if rej512 > best[0].0 {
+                best[0] = (rej512, s.clone());
+            }
+            if rej > best[1].0 {
+                best[1] = (rej, s);
+            }
+        }
+        eprintln!("[c14] most rejected chunks found: {} (n=512), {} (n=1024)", best[0].0, best[1].0);
+        out.emit(h2p_event(&best[0].1, "most-rejects"));
+        out.emit(h2p_event(&best[1].1, "most-rejects"));
+    }
+    // inputs across the 64 KiB mark (an implementation absorbing in pieces)
+    for l in if thorough { vec![65535usize, 65536, 65537, 200_000] } else { vec![65537usize] } {
+        let s: Vec<u8> = (0..l).map(|i| (i * 31 % 251) as u8).collect();
+        out.emit(h2p_event(&s, "length-64k"));
+    }
     // long then short, and the same string twice with another in between (state kept between calls)
     {
         let long: Vec<u8> = (0..5000).map(|i| (i % 253) as u8).collect();
